@@ -1,13 +1,13 @@
 ------------------------------ MODULE MC_LruGen ------------------------------
 (* Behaviour generator (binding B2): every history of length L of put/get/remove/clear    *)
-(* over Keys x Vals for every capacity 1..MaxCap, each step annotated with the result,     *)
+(* over Keys x Vals for every capacity in Caps, each step annotated with the result,     *)
 (* the eviction-callback log and the abstract state AFTER the step (recency order and      *)
 (* values) as computed by Lru.tla.  With 4 keys and capacity <= 3 nearly every put of a    *)
 (* new key evicts.  "drain" is the callback log TLC expects when the harness afterwards    *)
 (* pushes cap fresh keys through the cache: the whole content, least recently used first.  *)
 EXTENDS Lru, TLC, Json
 
-CONSTANTS Keys, Vals, MaxCap, L
+CONSTANTS Keys, Vals, Caps, L
 VARIABLE hist
 
 S == lru[1]
@@ -18,13 +18,15 @@ After == lru'[1]
 Pairs(s) == [i \in 1..Len(s.order) |-> <<s.order[i], s.val[s.order[i]]>>]
 Log(op, k, v, r, ev) == hist' = Append(hist, [op |-> op, k |-> k, v |-> v, r |-> r, ev |-> ev, st |-> Pairs(After)])
 
-Next ==
+Ops ==
     \/ \E k \in Keys, v \in Vals : Put(1, k, v, LPut(S, k, v).r, LPut(S, k, v).ev) /\ Log("put", k, v, LPut(S, k, v).r, LPut(S, k, v).ev)
     \/ \E k \in Keys : Get(1, k, LGet(S, k).r) /\ Log("get", k, AnyV, LGet(S, k).r, <<>>)
     \/ \E k \in Keys : Remove(1, k, LRemove(S, k).r, <<>>) /\ Log("remove", k, AnyV, LRemove(S, k).r, <<>>)
     \/ Clear(<<>>) /\ Log("clear", AnyK, AnyV, None, <<>>)
+(* histories of length L have no successors: nothing is generated just to be cut by the constraint *)
+Next == Len(hist) < L /\ Ops
 
-Init == (\E c \in 1..MaxCap : LruInit(1, c)) /\ hist = <<>>
+Init == (\E c \in Caps : LruInit(1, c)) /\ hist = <<>>
 Spec == Init /\ [][Next]_<<lru, loc, last, hist>>
 
 Drain == [i \in 1..Len(S.order) |-> LET k == S.order[Len(S.order) + 1 - i] IN <<k, S.val[k]>>]
